@@ -80,6 +80,15 @@ static int lang_search(const polyseed_lang* lang, const char* word,
     }
 }
 
+/* The wordlists are sorted by signed byte values (non-ASCII bytes sort
+   before ASCII and before the terminator). Compare explicitly as signed
+   char so that the result is the same where plain char is unsigned. */
+static inline int compare_char(char a, char b) {
+    signed char sa = (signed char)a;
+    signed char sb = (signed char)b;
+    return (sa > sb) - (sa < sb);
+}
+
 static int compare_str(const char* key, const char* elm) {
     for (;;) {
         if (*key == '\0' || *key != *elm) {
@@ -88,7 +97,7 @@ static int compare_str(const char* key, const char* elm) {
         ++key;
         ++elm;
     }
-    return (*key > *elm) - (*key < *elm);
+    return compare_char(*key, *elm);
 }
 
 static int compare_str_wrap(const void* a, const void* b) {
@@ -111,7 +120,7 @@ static int compare_prefix(const char* key, const char* elm, int n) {
         ++key;
         ++elm;
     }
-    return (*key > *elm) - (*key < *elm);
+    return compare_char(*key, *elm);
 }
 
 static int compare_prefix_wrap(const void* a, const void* b) {
@@ -122,10 +131,10 @@ static int compare_prefix_wrap(const void* a, const void* b) {
 
 static int compare_str_noaccent(const char* key, const char* elm) {
     for (;;) {
-        while (*key < 0) { /* skip non-ASCII */
+        while (IS_NON_ASCII(*key)) {
             ++key;
         }
-        while (*elm < 0) { /* skip non-ASCII */
+        while (IS_NON_ASCII(*elm)) {
             ++elm;
         }
         if (*key == '\0' || *key != *elm) {
@@ -134,7 +143,7 @@ static int compare_str_noaccent(const char* key, const char* elm) {
         ++key;
         ++elm;
     }
-    return (*key > *elm) - (*key < *elm);
+    return compare_char(*key, *elm);
 }
 
 static int compare_str_noaccent_wrap(const void* a, const void* b) {
@@ -145,10 +154,10 @@ static int compare_str_noaccent_wrap(const void* a, const void* b) {
 
 static int compare_prefix_noaccent(const char* key, const char* elm, int n) {
     for (int i = 1; ; ++i) {
-        while (*key < 0) { /* skip non-ASCII */
+        while (IS_NON_ASCII(*key)) {
             ++key;
         }
-        while (*elm < 0) { /* skip non-ASCII */
+        while (IS_NON_ASCII(*elm)) {
             ++elm;
         }
         if (*key == '\0') {
@@ -157,7 +166,7 @@ static int compare_prefix_noaccent(const char* key, const char* elm, int n) {
         if (i >= n) {
             /* is this the last letter of the key? */
             const char* next = key + 1;
-            while (*next < 0) { /* accents after the letter don't count */
+            while (IS_NON_ASCII(*next)) { /* accents after it don't count */
                 ++next;
             }
             if (*next == '\0') {
@@ -170,13 +179,13 @@ static int compare_prefix_noaccent(const char* key, const char* elm, int n) {
         ++key;
         ++elm;
     }
-    while (*key < 0) { /* skip non-ASCII */
+    while (IS_NON_ASCII(*key)) {
         ++key;
     }
-    while (*elm < 0) { /* skip non-ASCII */
+    while (IS_NON_ASCII(*elm)) {
         ++elm;
     }
-    return (*key > *elm) - (*key < *elm);
+    return compare_char(*key, *elm);
 }
 
 static int compare_prefix_noaccent_wrap(const void* a, const void* b) {
